@@ -273,13 +273,15 @@ impl Exp {
                 if exps.is_empty() {
                     return Exp::Max(vec![]);
                 }
+                //every operand is simplified once: doing it again for the operands that are
+                //not numbers doubles the work at every nesting level
+                let exps = exps.iter().map(|exp| exp.simplify()).collect::<Vec<_>>();
                 //if they are all numbers, return the max
                 let nums = exps
                     .iter()
                     .map(|exp| {
-                        let exp = exp.simplify();
                         if let Exp::Number(value) = exp {
-                            Some(value)
+                            Some(*value)
                         } else {
                             None
                         }
@@ -289,20 +291,22 @@ impl Exp {
                     Some(nums) => {
                         Exp::Number(nums.iter().cloned().fold(f64::NEG_INFINITY, f64::max))
                     }
-                    None => Exp::Max(exps.iter().map(|exp| exp.simplify()).collect::<Vec<_>>()),
+                    None => Exp::Max(exps),
                 }
             }
             Exp::Min(exps) => {
                 if exps.is_empty() {
                     return Exp::Min(vec![]);
                 }
+                //every operand is simplified once: doing it again for the operands that are
+                //not numbers doubles the work at every nesting level
+                let exps = exps.iter().map(|exp| exp.simplify()).collect::<Vec<_>>();
                 //if they are all numbers, return the min
                 let nums = exps
                     .iter()
                     .map(|exp| {
-                        let exp = exp.simplify();
                         if let Exp::Number(value) = exp {
-                            Some(value)
+                            Some(*value)
                         } else {
                             None
                         }
@@ -310,7 +314,7 @@ impl Exp {
                     .collect::<Option<Vec<f64>>>();
                 match nums {
                     Some(nums) => Exp::Number(nums.iter().cloned().fold(f64::INFINITY, f64::min)),
-                    None => Exp::Min(exps.iter().map(|exp| exp.simplify()).collect::<Vec<_>>()),
+                    None => Exp::Min(exps),
                 }
             }
             exp => exp.clone(),
